@@ -86,4 +86,72 @@ def run(ctx):
         traces.append(t.to_json())
         traces += finish_traces(uni, mp, g, ps, strings if thorough else strings[::2] + strings[1::6],
                                 classes=("A", "B", "S") if g == "Ed25519" else ("A", "S"), tag="-adv")
+    # decoding is a pure function: it must not depend on what was decoded before.  Histories a, b, a over the
+    # specification's adversarial encodings (every failure class, valid elements and their negations / twins), in one
+    # process - at the decoder, and through sessions: finish(i1, a); finish(i2, b); finish(restored copy of i1, a)
+    QUICK_ED = ["torsion point", "B + torsion", "-B + torsion", "base point", "-B", "2B", "3B", "-3B", "order 8L point",
+                "off-curve y", "identity, sign", "y = Q+1 (identity", "truncated to 31", "extended 00"]
+    for ps, g in [("Ped37", "ed37"), ("PEd25519", "Ed25519"), ("Pi23", "i23"), ("P1024", "I1024")] + ([("Ped109", "ed109"), ("P3072", "I3072")] if thorough else []):
+        uni.paramset(ps, grp=g) if g in TOY_INT or g in TOY_CURVES else uni.paramset(ps)
+        cases, res = pure.gen_from_spec("GenAdversarial", uni.gdesc[g])
+        pool, seen = [], set()
+        for c in cases:
+            if c["b"] in seen:
+                continue
+            if g == "Ed25519" and not thorough:
+                lab = [l for l in QUICK_ED if c["k"].startswith(l)]
+                if not lab or sum(1 for p_ in pool if p_[0].startswith(lab[0])) >= (3 if "torsion" in lab[0] else 1):
+                    continue
+            seen.add(c["b"])
+            pool.append((c["k"], unhx(c["b"])))
+        G = uni.group(g)
+        good = [b for _, b in pool if pure.dec_result(G, b)[0]]
+        for i in range(0, len(pool), 6):
+            t = Trace("decode-history/%s/%d" % (g, i), uni)
+            for _, a in pool[i:i + 6]:
+                for _, b in pool:
+                    for s in (a, b, a):
+                        t.raw(pure.ev_dec(uni, g, s))
+            traces.append(t.to_json())
+        ctx.cov["decode_histories_a_b_a"] = ctx.cov.get("decode_histories_a_b_a", 0) + len(pool) ** 2
+        q = G.order()
+        for ka, a in enumerate(good[:6 if thorough else 3]):
+            for kb, (lab, b) in enumerate(pool):
+                cls = "ABS"[(ka + kb) % 3]
+                r = Run("session-history/%s/%s/%d/%d" % (g, cls, ka, kb), uni)
+                for v in ("i1", "i2"):
+                    r.new(v, cls, ps, b"pw", b"idA", b"idB" if cls != "S" else b"")
+                r.start("i1", mp.stream_for(g, 5 % q))
+                r.start("i2", mp.stream_for(g, 6 % q))
+                blob = r.serialize("i1")
+                if blob is not None:
+                    r.restore("i1r", cls, ps, blob)
+                r.finish("i1", SIDE_OF_PEER[cls] + a)
+                r.finish("i2", SIDE_OF_PEER[cls] + b)
+                if "i1r" in r.inst:
+                    r.finish("i1r", SIDE_OF_PEER[cls] + a)
+                traces.append(r.json())
+    # custom groups of unusual shape (core.zoo): the specification's adversarial encodings plus values with a regular
+    # bit structure (m * 2^k and neighbours, p minus them, g^(2^k)) at every bit position
+    zl = [("s72a", 1), ("s136", 1), ("q251", 1), ("s72b", 1), ("m65", 1), ("s264", 8), ("q64full", 8), ("m521", 8), ("s600", 8), ("m64", 1)]
+    for g, step in (zl if thorough else zl[:4]):
+        ps = "P" + g
+        uni.paramset(ps, grp=g)
+        cases, res = pure.gen_from_spec("GenAdversarial", dict(uni.gdesc[g], step=step))
+        ctx.cov["states"] += res.get("states", 0)
+        ctx.cov["structured_values_from_spec"] = ctx.cov.get("structured_values_from_spec", 0) + len(cases)
+        t = Trace("structured-decode-" + g, uni)
+        for c in cases:
+            t.raw(dict(pure.ev_dec(uni, g, unhx(c["b"])), note=c["k"]))
+        traces.append(t.to_json())
+        strings = [unhx(c["b"]) for c in cases]
+        traces += finish_traces(uni, mp, g, ps, strings[::(7 if thorough else 29)] + strings[:20], classes=("A", "S"), tag="-zoo")
+    # ... and on the shipped integer groups at word boundaries
+    for ps, g in [("P1024", "I1024"), ("P2048", "I2048"), ("P3072", "I3072")][:(3 if thorough else 1)]:
+        cases, res = pure.gen_from_spec("GenAdversarial", dict(uni.gdesc[g], step=64 if thorough else 256))
+        t = Trace("structured-decode-" + g, uni)
+        for c in cases:
+            if c["k"] == "structured value":
+                t.raw(dict(pure.ev_dec(uni, g, unhx(c["b"])), note=c["k"]))
+        traces.append(t.to_json())
     ctx.validate(traces, uni, what="decoding")
